@@ -48,6 +48,7 @@ warnings.filterwarnings("ignore")
 # replay option "alt": the same moves through the alternative documented API forms - left_join / inner_join / full_join instead of
 # join(how=), explicit pdt.lit(..) instead of python literals, the method aliases key.rank() / key.dense_rank() instead of
 # pdt.rank(arrange=key), x.is_in([..]) / coalesce with a literal as pdt.lit, filter(p, q) as one conjunction
+SRC_FORM = "eager"      # how the Polars-side source tables are handed to pdt.Table: "eager" DataFrame, "lazy_ns", "pandas" (replay option `src`)
 ALT_FORMS = False
 
 PL_TYPES = {"int32": pl.Int32, "int8": pl.Int8, "uint16": pl.UInt16, "uint64": pl.UInt64, "float32": pl.Float32, "int": pl.Int64, "bool": pl.Boolean, "str": pl.String, "float": pl.Float64, "date": pl.Date, "datetime": pl.Datetime("us")}
@@ -111,6 +112,13 @@ class Backends:
                 self.dialect_engines = D.engines()
             return pdt.Table(D.sqa_table(s["name"], s["cols"]), pdt.SqlAlchemy(self.dialect_engines[backend]), name=name or s["name"])
         if backend == "polars":
+            if SRC_FORM == "lazy_ns":
+                # the documented other input forms: a LazyFrame, Datetime columns in another time unit (lossless: nanoseconds)
+                df = self.frames[si]
+                dts = [c for c, t in df.schema.items() if isinstance(t, pl.Datetime)]
+                return pdt.Table(df.with_columns([pl.col(c).dt.cast_time_unit("ns") for c in dts]).lazy(), name=name or s["name"])
+            if SRC_FORM == "pandas":
+                return pdt.Table(self.frames[si].to_pandas(use_pyarrow_extension_array=True), name=name or s["name"])
             return pdt.Table(self.frames[si], name=name or s["name"])
         return pdt.Table(self.sqa_tables[s["name"]], pdt.SqlAlchemy(self.engine), name=name or s["name"])
 
@@ -220,6 +228,8 @@ class ExprBuilder:
             return C[e["n"]]
         if k == "lit":
             v = lit_value(e)
+            if e.get("typed"):
+                return pdt.lit(v, PDT_TYPES[e["ty"]]())
             return pdt.lit(v) if top else v
         if k == "mark":
             x = self.build(e["a"][0], top=True)
@@ -227,6 +237,8 @@ class ExprBuilder:
         if k == "cast":
             if e.get("g") and e["to"] == "float":
                 return self.build(e["e"], top=True).cast(pdt.Float())
+            if e.get("ns"):
+                return self.build(e["e"], top=True).cast(PDT_TYPES[e["to"]](), strict=False)
             return self.build(e["e"], top=True).cast(PDT_TYPES[e["to"]]())
         if k == "map":
             x = self.build(e["e"], top=True)
@@ -281,7 +293,7 @@ class ExprBuilder:
                 return pdt.dense_rank(**kw)
             x = self.build(e["a"][0], top=True)
             if op == "shift":
-                args = [e["n"]]
+                args = [(pdt.lit(1) + (e["n"] - 1)) if e.get("nx") else e["n"]]      # nx: the offset as a constant expression
                 if e["fill"]:
                     args.append(self.build(e["fill"][0]))
                 return x.shift(*args, **kw)
@@ -307,7 +319,7 @@ class ExprBuilder:
             "and": lambda x, y: x & y, "or": lambda x, y: x | y, "xor": lambda x, y: x ^ y,
         }
         if op in binops:
-            if is_lit(raw[0]) and not is_lit(raw[1]):
+            if is_lit(raw[0]) and not is_lit(raw[1]) and not raw[0].get("typed"):
                 # literal (op) column: python dispatches to the reflected operator
                 return binops[op](lit_value(raw[0]), self.build(raw[1], top=True))
             return binops[op](a[0], a[1])
